@@ -64,13 +64,41 @@ func runMarkup(c *sx.Node) *sx.Node {
 	return parseWith(&markup.LineParser{}, markupInput(c.L[1]))
 }
 
+// afterLines are parsed on the reused parser AFTER the probe line and BEFORE the probe's result is
+// looked at: a result handed out earlier must not change when the parser goes on to other lines
+// (1, 2, 3, 4 attributes far from the start, so that a buffer shared with an earlier result of any
+// capacity is overwritten with ranges that do not fit the earlier text).
+var afterLines = []string{
+	"a much longer line than most, with some [zz]markup[/zz] near its end",
+	"another long line, this time with [y1]two[/y1] markers near [y2]its[/y2] end",
+	"and a third long line carrying [w1]three[/w1] of [w2]them[/w2] right [w3]here[/w3]",
+	"long enough to be beyond any of the earlier texts: [v1]a[/v1] [v2]b[/v2] [v3]c[/v3] [v4]d[/v4] [v5/]",
+}
+
 func runMarkupHist(c *sx.Node) *sx.Node {
 	p := &markup.LineParser{}
 	for _, h := range c.L[1].L {
 		parseWith(p, markupInput(h))
 	}
-	// the same line on the reused parser and on a fresh one
-	return sx.Tag("hist", parseWith(p, markupInput(c.L[2])), parseWith(&markup.LineParser{}, markupInput(c.L[2])))
+	// the same line on the reused parser and on a fresh one; the reused parser's result is kept
+	// while the parser parses further lines, and only then encoded
+	var reused *sx.Node
+	func() {
+		defer func() {
+			if r := recover(); r != nil {
+				reused = sx.Tag("panic")
+			}
+		}()
+		res, err := p.ParseMarkup(markupInput(c.L[2]))
+		for _, l := range afterLines {
+			parseWith(p, l)
+		}
+		for _, h := range c.L[1].L {
+			parseWith(p, markupInput(h))
+		}
+		reused = encParseResult(res, err)
+	}()
+	return sx.Tag("hist", reused, parseWith(&markup.LineParser{}, markupInput(c.L[2])))
 }
 
 // ---- document generator ----
@@ -112,20 +140,28 @@ func (g *mgen) props() string {
 }
 
 func (g *mgen) replacement() string {
+	// half of the replacement texts hold multi-byte characters (byte and character counts differ)
+	mb := g.r.Intn(2) == 0
+	pick := func(ascii, multi string) string {
+		if mb {
+			return multi
+		}
+		return ascii
+	}
 	switch g.r.Intn(6) {
 	case 0:
 		v := g.r.Intn(4)
-		return "[select value=" + strconv.Itoa(v) + " 0=zero 1=\"one %\" 2=two 3=\"\\% three\"/]"
+		return "[select value=" + strconv.Itoa(v) + pick(" 0=zero 1=\"one %\" 2=two 3=\"\\% three\"/]", " 0=zéro 1=\"ün %\" 2=日本 3=\"\\% 𝄞\"/]")
 	case 1:
-		return "[plural value=" + strconv.Itoa(g.r.Intn(3)) + " one=\"% apple\" other=\"% apples\"/]"
+		return "[plural value=" + strconv.Itoa(g.r.Intn(3)) + pick(" one=\"% apple\" other=\"% apples\"/]", " one=\"% pömme\" other=\"% pömmes\"/]")
 	case 2:
-		return "[ordinal value=" + strconv.Itoa(g.r.Intn(130)-5) + " one=\"%st\" two=\"%nd\" few=\"%rd\" other=\"%th\"/]"
+		return "[ordinal value=" + strconv.Itoa(g.r.Intn(130)-5) + pick(" one=\"%st\" two=\"%nd\" few=\"%rd\" other=\"%th\"/]", " one=\"%ᵉʳ\" two=\"%ⁿᵈ\" few=\"%é\" other=\"%日\"/]")
 	case 3:
-		return "[nomarkup]" + []string{"[b]raw[/b]", "plain", "[ x", ""}[g.r.Intn(4)] + "[/nomarkup]"
+		return "[nomarkup]" + []string{"[b]raw[/b]", "plain", "[ x", "", "[b]ünï[/b]", "日本", "é[ 𝄞"}[g.r.Intn(7)] + "[/nomarkup]"
 	case 4:
-		return "[nomarkup]keep [this][/]"
+		return pick("[nomarkup]keep [this][/]", "[nomarkup]gärde [日][/]")
 	default:
-		return "[select value=a a=\"it was %\" b=other]ignored[/select]"
+		return pick("[select value=a a=\"it was %\" b=other]ignored[/select]", "[select value=é é=\"c'était %\" b=other]ignoré[/select]")
 	}
 }
 
